@@ -43,7 +43,16 @@ META = {
             "every history the output is within outmin..outmax; a concrete 2x2 controller satisfies all hypotheses (gains "
             "computed in closed form; zero-sum case keeps the base gains; C13/Examples.v also shows by vm_compute on binary64 "
             "that the as-found a_pid_fuzzy_out_ stored NaN there and that an undersized block gives Fail ErrScratch).  NOT proved: monotone flanks of psig with slopes of "
-            "opposite sign; rounding (binary64) is outside the theorems.  Tie: the SAME Gallina terms instantiated "
+            "opposite sign; those 35 are over the reals.  Rounded arithmetic (10 further theorems, C13/MfRound.v: the same terms at "
+            "Rnd_ops rnd / with exp and pow as oracles constrained by orc_ok, rnd monotone with rnd 0=0, rnd 1=1, rnd 2=2, odd - "
+            "binary64 round-to-nearest-even by Flocq - overflow outside the model): tri/trap/lins/linz lie in [0,1], are exactly 1 "
+            "on the core and 0 outside the support provided the divided difference does not flush to zero (holds for binary64 "
+            "parameters); s/z/pi lie in [0,1] under a midpoint condition on the parameters and have their literal core/support "
+            "values when the COMPUTED midpoint rnd(rnd(a+b)/2) separates a and b, and WITHOUT it are refuted in binary64 "
+            "(a=1+2^-52, b=1+2^-51: a_mf_s(b,a,b)=2; a=1+2^-51, b=1+3*2^-52: a_mf_z(a,a,b)=2, confirmed on the C); "
+            "gauss/gauss2/gbell/sig/psig/dsig lie in [0,1] for any oracles with 0<=exp, exp<=1 on t<=0, exp monotone, pow>=0 "
+            "(correctly rounded ones qualify; libm is assumed to); not/cap/cap_algebra/cap_bounded/cup/cup_bounded/equ map "
+            "[0,1]^2 into [0,1], cup_algebra is >=0 (its bound <=1 is not proved).  Tie: the SAME Gallina terms instantiated "
             "with primitive binary64 floats are evaluated by vm_compute and compared bit for bit with the C built from the "
             "current tree (-O2 -ffp-contract=off, ASan; exp/pow replaced by identical substitutes on both sides): all 13 "
             "functions and the dispatcher on breakpoints and their neighbouring doubles, the operators, table walks, and "
